@@ -1410,4 +1410,164 @@ theorem seeded_perm' {α} (isLogged : α → Bool) (sd lsd : Seed) (sp : Nat) (x
     (shuffleSeeded sd xs).Perm xs ∧ (eShuffleSeeded isLogged sd lsd xs).Perm xs ∧ (riffleSeeded sp sd xs).Perm xs :=
   ⟨pShuffle_perm' _ xs, eShuffle_perm' _ _ _ xs, riffle_perm' _ _ xs⟩
 
+
+/-! # Phase 3 -/
+
+/-! BatchSafe on arbitrary batch sequences -/
+theorem batchSafe_first_batch' {V} (G : List (Batched V) → Except Err (List (Batched V)))
+    (F : List (Rec V) → Except Err (List (Rec V))) (hG : agreesOnPlain G F)
+    (k : String) (vs : List V) (cols : List (String × List V)) (rest : List (Batched V)) (hvs : vs ≠ []) :
+    batchSafe G (.batch ((k, vs) :: cols) :: rest)
+      = (match F (unbatchF (.batch ((k, vs) :: cols) :: rest)) with
+         | .error e => .error e
+         | .ok ys => batchF vs.length ys) := by
+  have hlen : vs.length ≠ 0 := by
+    intro h; exact hvs (List.length_eq_zero_iff.1 h)
+  simp only [batchSafe, firstBatchSize, hlen, ↓reduceIte]
+  rw [hG]
+  cases F (unbatchF (.batch ((k, vs) :: cols) :: rest)) with
+  | error e => rfl
+  | ok ys => simp [unbatchF_plain]
+
+theorem batchSafe_unbatch' {V} (G : List (Batched V) → Except Err (List (Batched V)))
+    (F : List (Rec V) → Except Err (List (Rec V))) (hG : agreesOnPlain G F)
+    (k : String) (vs : List V) (cols : List (String × List V)) (rest : List (Batched V)) (hvs : vs ≠ [])
+    (ys : List (Rec V)) (hF : F (unbatchF (.batch ((k, vs) :: cols) :: rest)) = .ok ys)
+    (ks : List String) (hne : ks ≠ []) (hu : uniformKeys ks ys) :
+    ∃ out, batchSafe G (.batch ((k, vs) :: cols) :: rest) = .ok out ∧ unbatchF out = ys := by
+  rw [batchSafe_first_batch' G F hG k vs cols rest hvs, hF]
+  exact batch_unbatch_id' vs.length ks hne ys hu
+
+theorem uniform_of_subset {V} (ks : List String) (xs ys : List (Rec V)) (hu : uniformKeys ks xs)
+    (hs : ∀ y ∈ ys, y ∈ xs) : uniformKeys ks ys := ⟨hu.1, fun y hy => hu.2 y (hs y hy)⟩
+
+theorem batchSafe_selection' {V} (G : List (Batched V) → Except Err (List (Batched V)))
+    (F : List (Rec V) → Except Err (List (Rec V))) (hG : agreesOnPlain G F)
+    (size : Nat) (hs : 0 < size) (ks : List String) (hne : ks ≠ []) (recs : List (Rec V)) (hr : recs ≠ [])
+    (hu : uniformKeys ks recs) (bs : List (Batched V)) (hb : batchF size recs = .ok bs)
+    (ys : List (Rec V)) (hF : F recs = .ok ys) (hsel : ∀ y ∈ ys, y ∈ recs) :
+    ∃ out, batchSafe G bs = .ok out ∧ unbatchF out = ys := by
+  obtain ⟨first, rest, hbs, hsz, hub⟩ := batchF_first size hs ks hne recs hr hu bs hb
+  subst hbs
+  have hpos : min size recs.length ≠ 0 := by
+    have : 0 < recs.length := List.length_pos_of_ne_nil hr
+    omega
+  simp only [batchSafe, hsz, hpos, ↓reduceIte, hub]
+  rw [hG, hF]
+  simp only [unbatchF_plain]
+  exact batch_unbatch_id' _ ks hne ys (uniform_of_subset ks recs ys hu hsel)
+
+theorem batchSafe_falsy_first' {V} (G : List (Batched V) → Except Err (List (Batched V)))
+    (first : Batched V) (rest : List (Batched V)) (h : firstBatchSize first = 0) :
+    batchSafe G (first :: rest) = G (first :: rest) := by
+  simp [batchSafe, h]
+
+theorem liftF_agrees {V} (F : List (Rec V) → Except Err (List (Rec V))) : agreesOnPlain (liftF F) F :=
+  fun recs => liftF_plain F recs
+
+/-! products -/
+theorem productMembers_succ (n nF : Nat) :
+    productMembers (n+1) nF = productMembers n nF ++ (List.range nF).map (fun j => (n, j)) := by
+  simp [productMembers, List.range_succ, List.flatMap_append]
+
+theorem productMembers_length (nE nF : Nat) : (productMembers nE nF).length = nE * nF := by
+  induction nE with
+  | zero => simp [productMembers]
+  | succ n ih => rw [productMembers_succ, List.length_append, ih]; simp [Nat.succ_mul]
+
+theorem productMembers_get' (nE nF i j : Nat) (hi : i < nE) (hj : j < nF) :
+    (productMembers nE nF)[i * nF + j]? = some (i, j) := by
+  induction nE with
+  | zero => omega
+  | succ n ih =>
+    rw [productMembers_succ]
+    by_cases h : i < n
+    · have hlt : i * nF + j < (productMembers n nF).length := by
+        rw [productMembers_length]
+        calc i * nF + j < i * nF + nF := by omega
+          _ = (i + 1) * nF := by rw [Nat.succ_mul]
+          _ ≤ n * nF := Nat.mul_le_mul_right _ h
+      rw [List.getElem?_append_left hlt]
+      exact ih h
+    · have hin : i = n := by omega
+      subst hin
+      rw [List.getElem?_append_right (by rw [productMembers_length]; omega), productMembers_length]
+      simp [hj]
+
+theorem sortedMembers_spec' (seedOf : Nat → Nat) (nE nF : Nat) :
+    (sortedMembers seedOf nE nF).Perm (productMembers nE nF) ∧
+    (sortedMembers seedOf nE nF).Pairwise (fun a b => seedOf a.2 ≤ seedOf b.2) ∧
+    (∀ a b, seedOf a.2 ≤ seedOf b.2 → [a, b].Sublist (productMembers nE nF) → [a, b].Sublist (sortedMembers seedOf nE nF)) := by
+  have h := sortBy_spec' (fun a b : Nat => decide (a ≤ b)) (fun m : Nat × Nat => seedOf m.2)
+    (by intro a b; simp; omega) (by intro a b c; simp; omega) (productMembers nE nF)
+  unfold sortedMembers
+  refine ⟨h.1, ?_, ?_⟩
+  · simpa using h.2.1
+  · intro a b hab; exact h.2.2 a b (by simpa using hab)
+
+theorem collection_product' {E Φ α} (apply : Φ → E → Except Err (List α)) (envs : Nat → E) (filters : Nat → Φ)
+    (members : List (Nat × Nat)) (dflt : Nat × Nat) (h : List (Nat × Option Nat)) (m i j : Nat)
+    (hm : members[m]? = some (i, j)) :
+    ((runColl (statelessFilt (fun p : E × Φ => apply p.2 p.1)) (memberEnv envs filters members dflt) (fun _ => ()) h).filter (·.1 = m)).map (·.2)
+      = ((h.filter (·.1 = m)).map (·.2)).map (fun c => match c with
+          | none => apply (filters j) (envs i)
+          | some k => match apply (filters j) (envs i) with | .ok l => .ok (l.take k) | .error e => .error e) := by
+  rw [collection_stateless']
+  simp only [statelessFilt, memberEnv, hm, Option.getD_some]
+  congr 1
+
+theorem unbatchG_plain_first' (first : CRec) (rest : List CRec)
+    (h : first.find? (fun kv => kv.2.isBatch) = none) : unbatchG (first :: rest) = .ok (first :: rest) := by
+  simp [unbatchG, h]
+
+theorem rowsOf_wf (r : CRec) (n : Nat) (h : wfBatch r n) : rowsOf r n = rowsSpec r n := by
+  unfold rowsOf rowsSpec
+  apply List.map_congr_left
+  intro i hi
+  have hi' : i < n := List.mem_range.1 hi
+  induction r with
+  | nil => rfl
+  | cons kv r ih =>
+    obtain ⟨vs, hv, hl⟩ := h kv (by simp)
+    have ih' := ih (fun kv' h' => h kv' (by simp [h']))
+    obtain ⟨v, hv'⟩ : ∃ v, vs[i]? = some v := ⟨vs[i]'(by omega), List.getElem?_eq_getElem (by omega)⟩
+    have hhead : cellAt kv.2 i = Cell.val v := by rw [hv]; simp [cellAt, hv']
+    rw [List.map_cons, hhead, ih', List.filterMap_cons]
+    simp [hv, hv']
+
+theorem unbatchRec_wf (bk : String) (r : CRec) (n : Nat) (h : wfBatch r n) (c : Cell) (hk : lookupCell bk r = some c) :
+    unbatchRec bk r = .ok (rowsSpec r n) := by
+  have hmem : ∃ kv ∈ r, kv.2 = c := by
+    clear h
+    induction r with
+    | nil => simp [lookupCell] at hk
+    | cons kv r ih =>
+      obtain ⟨k', v⟩ := kv
+      simp only [lookupCell] at hk
+      split at hk
+      · injection hk with hk; exact ⟨(k', v), by simp, hk⟩
+      · obtain ⟨kv, h1, h2⟩ := ih hk; exact ⟨kv, by simp [h1], h2⟩
+  obtain ⟨kv, hkv, hc⟩ := hmem
+  obtain ⟨vs, hv, hl⟩ := h kv hkv
+  simp only [unbatchRec, hk, ← hc, hv, cellLen, hl]
+  rw [rowsOf_wf r n h]
+
+/-- every interaction fully batched (each with its own size) and carrying the first batched key of
+the first one: Unbatch is the row-by-row transposition, in order -/
+theorem unbatchAll_wf (bk : String) (rs : List CRec) (size : CRec → Nat)
+    (h : ∀ r ∈ rs, wfBatch r (size r) ∧ ∃ c, lookupCell bk r = some c) :
+    unbatchAll bk rs = .ok (rs.flatMap (fun r => rowsSpec r (size r))) := by
+  induction rs with
+  | nil => rfl
+  | cons r rs ih =>
+    obtain ⟨hw, c, hc⟩ := h r (by simp)
+    simp only [unbatchAll, unbatchRec_wf bk r (size r) hw c hc, ih (fun r' h' => h r' (by simp [h'])), List.flatMap_cons]
+
+theorem unbatchG_wf' (first : CRec) (rest : List CRec) (size : CRec → Nat) (bk : String) (c0 : Cell)
+    (hfirst : first.find? (fun kv => kv.2.isBatch) = some (bk, c0))
+    (h : ∀ r ∈ first :: rest, wfBatch r (size r) ∧ ∃ c, lookupCell bk r = some c) :
+    unbatchG (first :: rest) = .ok ((first :: rest).flatMap (fun r => rowsSpec r (size r))) := by
+  simp only [unbatchG, hfirst]
+  exact unbatchAll_wf bk (first :: rest) size h
+
 end Coba.C09
